@@ -363,9 +363,9 @@ impl KeyValueResult {
         match self {
             KeyValueResult::Ok { response } => match response {
                 KeyValueResponse::Get { value } => Ok(value.into()),
-                _ => {
-                    panic!("attempt to convert KeyValueResponse other than Get to Option<Vec<u8>>")
-                }
+                _ => Err(KeyValueError::Other {
+                    message: "unexpected response: expected Get".to_string(),
+                }),
             },
             KeyValueResult::Err { error } => Err(error.clone()),
         }
@@ -375,9 +375,9 @@ impl KeyValueResult {
         match self {
             KeyValueResult::Ok { response } => match response {
                 KeyValueResponse::Set { previous } => Ok(previous.into()),
-                _ => {
-                    panic!("attempt to convert KeyValueResponse other than Set to Option<Vec<u8>>")
-                }
+                _ => Err(KeyValueError::Other {
+                    message: "unexpected response: expected Set".to_string(),
+                }),
             },
             KeyValueResult::Err { error } => Err(error.clone()),
         }
@@ -387,9 +387,9 @@ impl KeyValueResult {
         match self {
             KeyValueResult::Ok { response } => match response {
                 KeyValueResponse::Delete { previous } => Ok(previous.into()),
-                _ => panic!(
-                    "attempt to convert KeyValueResponse other than Delete to Option<Vec<u8>>"
-                ),
+                _ => Err(KeyValueError::Other {
+                    message: "unexpected response: expected Delete".to_string(),
+                }),
             },
             KeyValueResult::Err { error } => Err(error.clone()),
         }
@@ -399,7 +399,9 @@ impl KeyValueResult {
         match self {
             KeyValueResult::Ok { response } => match response {
                 KeyValueResponse::Exists { is_present } => Ok(is_present),
-                _ => panic!("attempt to convert KeyValueResponse other than Exists to bool"),
+                _ => Err(KeyValueError::Other {
+                    message: "unexpected response: expected Exists".to_string(),
+                }),
             },
             KeyValueResult::Err { error } => Err(error.clone()),
         }
@@ -412,9 +414,9 @@ impl KeyValueResult {
                     keys,
                     next_cursor: cursor,
                 } => Ok((keys, cursor)),
-                _ => panic!(
-                    "attempt to convert KeyValueResponse other than ListKeys to (Vec<String>, u64)"
-                ),
+                _ => Err(KeyValueError::Other {
+                    message: "unexpected response: expected ListKeys".to_string(),
+                }),
             },
             KeyValueResult::Err { error } => Err(error.clone()),
         }
